@@ -97,4 +97,17 @@ mod verif_c01 {
         assert!(n() == 1 && at(0) == Ev::CollectBase64);
         kani::cover!(true);
     }
+
+    // JSON is human readable on both sides, Smile is not: serializer and deserializer must agree, because types such
+    // as uuid pick their representation from this flag
+    #[kani::proof]
+    fn human_readable_flags_agree() {
+        let mut js = Serializer::new(std::io::sink());
+        assert!(ser::Serializer::is_human_readable(&&mut js));
+        let mut jc = crate::json::ClientDeserializer::from_slice(b"");
+        assert!(serde::Deserializer::is_human_readable(&&mut jc));
+        let mut jsv = crate::json::ServerDeserializer::from_slice(b"");
+        assert!(serde::Deserializer::is_human_readable(&&mut jsv));
+        kani::cover!(true);
+    }
 }
